@@ -865,8 +865,49 @@ impl Sim {
                     self.check_write(&mk, &pre, &ch, &BTreeMap::new(), obs);
                     obs.probe("buffer_applied");
                     let req: Vec<&str> = if all_updatable { vec!["MARKET_KEEPER", "MARKET_CONFIG_KEEPER"] } else { vec!["MARKET_KEEPER"] };
-                    let _ = req;
+                    // C19 twins: the buffer is first handed to the twin signer (on the fork) so that only the
+                    // role check stands between the twin and the market
+                    if self.twins {
+                        let x = self.stranger2;
+                        let hand_over = store_ix(
+                            gmsol_store::accounts::SetMarketConfigBufferAuthority { authority: signer, buffer: bkey },
+                            gmsol_store::instruction::SetMarketConfigBufferAuthority { new_authority: x },
+                        );
+                        let mut forged = ix.clone();
+                        for m in forged.accounts.iter_mut() {
+                            if m.pubkey == signer {
+                                m.pubkey = x;
+                            }
+                        }
+                        for variant in ["no_role", "every_other_role"] {
+                            let mut f = pre.clone();
+                            if variant == "every_other_role" {
+                                let mut granted = true;
+                                for r in chainsim::deploy::ALL_ROLES {
+                                    if req.contains(r) {
+                                        continue;
+                                    }
+                                    let o = f.process(store_ix(
+                                        gmsol_store::accounts::GrantRole { authority: self.d.admin, store: self.d.store },
+                                        gmsol_store::instruction::GrantRole { user: x, role: r.to_string() },
+                                    ));
+                                    granted &= o.ok;
+                                }
+                                if !granted {
+                                    continue;
+                                }
+                            }
+                            if !f.process(hand_over.clone()).ok {
+                                continue;
+                            }
+                            let o = f.process(forged.clone());
+                            obs.fault(if variant == "no_role" { "byzantine_twin_no_role" } else { "byzantine_twin_every_other_role" });
+                            obs.probe("c19_twin:update_market_config_with_buffer");
+                            obs.require(!o.ok, "C19", "stranger_accepted", || format!("ix=update_market_config_with_buffer,variant={variant}"), || format!("update_market_config_with_buffer (all_updatable={all_updatable}) signed by a new buffer authority holding {variant} (required {req:?}) succeeded"));
+                        }
+                    }
                 }
+                obs.require(!out.ok || is_mk || (is_mck && all_updatable), "C19", "stranger_accepted", || "ix=update_market_config_with_buffer,variant=scheduled".into(), || format!("update_market_config_with_buffer by {by:?} (market keeper={is_mk}, config keeper={is_mck}) succeeded with all_updatable={all_updatable}"));
             }
             Step::InsertAmount { by, key, value } => {
                 let signer = self.who[by];
